@@ -30,21 +30,26 @@ Definition senc_eqb (a b : senc) : bool :=
   | _, _ => false
   end.
 
-(* replace the byte at position p (mod length) by a different one *)
+(* single-position alterations: substitute the byte at p by a different one, insert byte d before p, delete byte p
+   (positions taken modulo the length of the byte string they are applied to) *)
+Inductive salt := SNone | SSub (p : nat) (d : N) | SIns (p : nat) (d : N) | SDel (p : nat).
+
 Fixpoint set_nth (l : bytes) (p : nat) (f : N -> N) : bytes :=
   match l, p with
   | [], _ => []
   | x :: r, O => f x :: r
   | x :: r, S q => x :: set_nth r q f
   end.
-Definition alter (l : bytes) (alt : option (nat * N)) : bytes :=
+Definition alter (l : bytes) (alt : salt) : bytes :=
   match alt with
-  | None => l
-  | Some (p, d) => match l with [] => [d] | _ => set_nth l (Nat.modulo p (length l)) (fun x => (x + 1 + d mod 255) mod 256) end
+  | SNone => l
+  | SSub p d => match l with [] => [d] | _ => set_nth l (Nat.modulo p (length l)) (fun x => (x + 1 + d mod 255) mod 256) end
+  | SIns p d => let q := Nat.modulo p (S (length l)) in firstn q l ++ d :: skipn q l
+  | SDel p => match l with [] => [] | _ => let q := Nat.modulo p (length l) in firstn q l ++ skipn (S q) l end
   end.
 
 Inductive vmode := VSame | VImport.          (* verify with kh.Public() of the signer / with the re-imported exported key *)
-Inductive aalt := ANone | ACipher (p : nat) (d : N) | ANonce (p : nat) (d : N) | AAad | AOtherKeys.
+Inductive aalt := ANone | ACipher (x : salt) | ANonce (x : salt) | AAad | AOtherKeys.
 
 Inductive case :=
 (* Go codec on (r,s): encoder output (None = error) ; model must agree and decode it back *)
@@ -56,18 +61,21 @@ Inductive case :=
    prefix type of the real handle; vm: how the verifier handle was obtained; okey/omsg: verifier uses another key /
    another message; alt: single-position alteration; sig: the REAL signature; rs: (r,s) the harness obtained with
    math/big from it and checked with crypto/ecdsa directly (ECDSA types); acc: the service accepted *)
-| CSig (kt : nat) (created : bool) (kid : N) (pt : ptype) (vm : vmode) (okey omsg : bool) (alt : option (nat * N))
+| CSig (kt : nat) (created : bool) (kid : N) (pt : ptype) (vm : vmode) (okey omsg : bool) (alt : salt)
        (sig : bytes) (rs : option (Z * Z)) (acc : bool)
 (* one encrypt/decrypt: keyset at encryption time, keyset at decryption time, alteration, REAL nonce and cipher,
    message length, the byte string that real Tink accepted directly, service accepted *)
 | CAead (enc_ks dec_ks : keyset) (alt : aalt) (nonce cipher : bytes) (mlen : nat) (joined : bytes) (acc : bool)
 (* one MAC: key id, prefix type, other key / other data, alteration, REAL tag, accepted *)
-| CMac (kid : N) (pt : ptype) (okey odata : bool) (alt : option (nat * N)) (tag : bytes) (acc : bool).
+| CMac (kid : N) (pt : ptype) (okey odata : bool) (alt : salt) (tag : bytes) (acc : bool)
+(* signature/verifier.PublicKeyVerifier on the exported public key: curve byte size, key signs DER or P1363, other key /
+   other message, alteration, REAL signature, (r,s) obtained independently, accepted *)
+| CPkv (n : nat) (der : bool) (okey omsg : bool) (alt : salt) (sig : bytes) (rs : option (Z * Z)) (acc : bool).
 
 Definition row (i : nat) : option ktrow := nth_error table i.
 
 Definition check_sig (kt : nat) (created : bool) (kid : N) (pt : ptype) (vm : vmode) (okey omsg : bool)
-  (alt : option (nat * N)) (sig : bytes) (rs : option (Z * Z)) (acc : bool) : bool :=
+  (alt : salt) (sig : bytes) (rs : option (Z * Z)) (acc : bool) : bool :=
   match row kt with
   | None => false
   | Some rw =>
@@ -104,8 +112,8 @@ Definition check_aead (eks dks : keyset) (alt : aalt) (nonce cipher : bytes) (ml
       let aad := [1] in
       (match svc_encrypt inst_enc eks nonce aad m with
        | Some (c, n) =>
-           let c' := match alt with ACipher p d => alter c (Some (p, d)) | _ => c end in
-           let n' := match alt with ANonce p d => alter n (Some (p, d)) | _ => n end in
+           let c' := match alt with ACipher x => alter c x | _ => c end in
+           let n' := match alt with ANonce x => alter n x | _ => n end in
            let a' := match alt with AAad => [2] | _ => aad end in
            Bool.eqb (match svc_decrypt inst_dec dks c' a' n' with Some m' => bytes_eqb m' m | None => false end) acc
            && bytes_eqb n nonce
@@ -117,13 +125,24 @@ Definition check_aead (eks dks : keyset) (alt : aalt) (nonce cipher : bytes) (ml
       && bytes_eqb (prefix_of e ++ nonce ++ cipher) joined
   end.
 
-Definition check_mac (kid : N) (pt : ptype) (okey odata : bool) (alt : option (nat * N)) (tag : bytes) (acc : bool) : bool :=
+Definition check_mac (kid : N) (pt : ptype) (okey odata : bool) (alt : salt) (tag : bytes) (acc : bool) : bool :=
   let k := {| s_id := kid; s_pt := pt; s_mat := 7; s_enc := EncOpaque |} in
   let kv := {| s_id := kid; s_pt := pt; s_mat := (if okey then 8 else 7); s_enc := EncOpaque |} in
   let t := svc_mac inst_mac k [3] in
   Bool.eqb (svc_verify_mac inst_mac [kv] (alter t alt) (if odata then [4] else [3])) acc
   && bytes_eqb (firstn (length (sprefix k)) tag) (sprefix k)
   && Nat.eqb (length tag) (length (sprefix k) + 32).
+
+Definition curve_bits (n : nat) : N := match n with 66%nat => 519 | _ => 8 * N.of_nat n - 1 end.
+
+Definition check_pkv (n : nat) (der okey omsg : bool) (alt : salt) (sig : bytes) (rs : option (Z * Z)) (acc : bool) : bool :=
+  let bits := curve_bits n in
+  let k := {| s_id := 1; s_pt := PRaw; s_mat := 7; s_enc := (if der then EncDer else EncP1363 n) |} in
+  (match svc_sign (inst_sign_big bits) k 3 5 with
+   | Some sg => Bool.eqb (pkv_verify (inst_verify_big bits) Fixed n (if okey then 8 else 7) (alter sg alt) (if omsg then 4 else 3)) acc
+   | None => false
+   end)
+  && match rs with Some (r, s) => opt_rs_eqb (pkv_decode Fixed n sig) (Some (r, s)) | None => true end.
 
 (* (r,s) within the range of the encoding (the encoder does not check it; out-of-range values are only compared
    on the encoder's output) *)
@@ -145,6 +164,7 @@ Definition check_case (c : case) : bool :=
   | CSig kt created kid pt vm okey omsg alt sig rs acc => check_sig kt created kid pt vm okey omsg alt sig rs acc
   | CAead eks dks alt nonce cipher mlen joined acc => check_aead eks dks alt nonce cipher mlen joined acc
   | CMac kid pt okey odata alt tag acc => check_mac kid pt okey odata alt tag acc
+  | CPkv n der okey omsg alt sig rs acc => check_pkv n der okey omsg alt sig rs acc
   end.
 
 Fixpoint mismatches_from (i : nat) (cs : list case) : list nat :=
